@@ -354,6 +354,7 @@ ARGS_LOOP:
 			// An option in a bundle can consume the arguments that follow and advance the iterator,
 			// keep the cli argument being processed for messages and pass through.
 			cliArg := iterator.Value()
+			cliArgIdx := iterator.Index()
 
 			// A single cli argument can hold multiple unknown options (bundling), pass it through only once.
 			passedThrough := false
@@ -370,7 +371,8 @@ ARGS_LOOP:
 
 				if len(optionMatches) == 0 {
 					if currentProgramNode.requireOrder {
-						storeRemainingAsText(iterator, currentProgramNode)
+						// Hand over the argument being processed and everything after it.
+						currentProgramNode.ChildText = append(currentProgramNode.ChildText, args[cliArgIdx:]...)
 						break ARGS_LOOP
 					}
 					// TODO: This shouldn't append new children but update existing ones and isOption needs to be able to check if the option expects a follow up argument.
